@@ -312,6 +312,35 @@ class Body:
                     if len(ops) == 1 and last.kind != 'undef':
                         ph.extra['same_as'] = last
                         changed = True
+        # a component read from a merge of aggregates (`let (a, b) = if c { (x, y) } else { (z, w) }`, a tuple returned by
+        # an expanded helper through several returns) is the merge of the components
+        for v in list(self._vals):
+            if v.kind != 'load' or not v.args[1]:
+                continue
+            P = strip(v.args[0])
+            if P is None or P.kind != 'phi' or P.extra.get('anyof') or not P.args:
+                continue
+            path = v.args[1]
+            if path[0] == '*' or not isinstance(path[0], str):
+                continue
+            comps = []
+            for a in P.args:
+                sa = strip(a)
+                if sa is None or sa.kind != 'agg':
+                    comps = None
+                    break
+                c = self.mk_load(sa, tuple(path), v.ty, v.point, v.span)
+                if c.kind == 'load' and strip(c.args[0]) is sa:
+                    comps = None        # not resolvable inside the aggregate
+                    break
+                comps.append(c)
+            if comps:
+                ids = {strip(c).id for c in comps}
+                if len(ids) == 1:
+                    v.extra['same_as'] = strip(comps[0])
+                else:
+                    n = self.new('phi', list(comps), ty=v.ty, point=v.point, span=v.span, extra={'block': P.extra['block'], 'local': -1, 'preds': list(P.extra['preds'])})
+                    v.extra['same_as'] = n
 
     def _rename(self, b, cur, children):
         cur = dict(cur)
@@ -631,7 +660,7 @@ def strip(v):
     while v is not None:
         if v.kind == 'cast':
             v = v.args[0]
-        elif v.kind == 'phi' and 'same_as' in v.extra:
+        elif v.kind in ('phi', 'load') and 'same_as' in v.extra:
             v = v.extra['same_as']
         else:
             break
@@ -649,6 +678,9 @@ def walk(v, seen=None):
             continue
         seen.add(x.id)
         yield x
+        if x.kind in ('load', 'phi') and 'same_as' in x.extra:
+            stack.append(x.extra['same_as'])      # transparent: what it stands for, not what it was read from
+            continue
         if x.kind in ('load', 'ref'):
             stack.append(x.args[0])
             for p in x.args[1]:
